@@ -4,6 +4,8 @@ import (
 	"fmt"
 	"os"
 	"strings"
+
+	"golang.org/x/tools/go/ssa"
 )
 
 // cmdDump prints internal analysis results for debugging the checker itself.
@@ -44,8 +46,34 @@ func cmdDump(args []string) int {
 				fmt.Printf("  sink b%d writer=%s data=%s\n", s.Call.Block().Index, a.Desc(s.Writer), a.DataDesc(s))
 			}
 		}
+	case "paths":
+		for _, f := range c.CG().Funcs {
+			if filter == "" || fname(f) != filter {
+				continue
+			}
+			ps, trunc := c.Paths(f, PXConfig{SkipErrEdges: true, Opaque: func(g *ssa.Function) bool {
+				for _, r := range append(c.codeImpls(c.renderName()), c.codeImpls(c.nullName())...) {
+					if r == g {
+						return true
+					}
+				}
+				return g == c.registerFn()
+			}})
+			fmt.Printf("== %s: %d paths (truncated %v)\n", fname(f), len(ps), trunc)
+			for i, p := range ps {
+				fmt.Printf("-- path %d end=%s ret=%v trace=%s\n   facts %s\n", i, p.End, p.Ret, strings.Join(p.Trace, ">"), p.Facts)
+				for _, e := range p.Events {
+					switch e.Kind {
+					case "write":
+						fmt.Printf("   W[%s] %v\n", e.Writer, e.Segs)
+					default:
+						fmt.Printf("   %s %s recv=%v args=%v\n", e.Kind, e.Name, e.Recv, e.Args)
+					}
+				}
+			}
+		}
 	default:
-		fmt.Fprintln(os.Stderr, "dump summaries|facts [filter]")
+		fmt.Fprintln(os.Stderr, "dump summaries|facts|paths [filter]")
 		return 2
 	}
 	return 0
